@@ -305,3 +305,25 @@ func H09e() {
 	vAssert(bytes.Equal(a1.Bytes(), w1.Bytes()), "C09.same-result-as-alone")
 	vReached("end")
 }
+
+// H08f: the verdict on a field definition is a function of the definition:
+// it does not depend on which other definitions any decoder validated
+// before. Message gmn (parameter), arbitrary field number, size and
+// (canonical) base type; the history is the same field definition validated
+// for an arbitrary other message number (unknown to the profile).
+func H08f() {
+	g2 := MesgNum(vParam("gmn"))
+	fd := fieldDef{num: vByte(), size: vByte(), btype: types.Base(vByte())}
+	vAssume(vCanonTab[fd.btype])
+	fd.btype = types.Base(vConcretize(int(fd.btype)))
+	var d0 decoder
+	r0 := d0.validateFieldDef(g2, fd) == nil
+	g1 := MesgNum(vU16())
+	vAssume(!knownMsgNums[g1] && g1 != MesgNumInvalid)
+	var d1 decoder
+	_ = d1.validateFieldDef(g1, fd)
+	var d2 decoder
+	r1 := d2.validateFieldDef(g2, fd) == nil
+	vAssert(r0 == r1, "C08.history.definition-verdict-independent-of-history")
+	vReached("end")
+}
